@@ -75,9 +75,9 @@ func c10NewEnv(n int, minSelf, topCount int64) *c10Env {
 
 // SV_C10_election: one block-end election.
 //
-// sv:bounds 2 (quick) / 3 (thorough) candidate validator records at version h-1 with arbitrary power (0 <= p < 2^62; record present or absent), each arbitrary whether it was in the last commit (active), flagged malicious, has a status record, and its last purge height (0..h); TopValidatorCount in 1..number of candidates; minimum self delegation symbolic (1 <= m < 2^62); fee pool below the distribution threshold; no open allegation; h = 2
+// sv:bounds 2 (quick) / 3 (thorough) candidate validator records at version h-1 with arbitrary power (0 <= p < 2^62; record present or absent), each arbitrary whether it was in the last commit (active), flagged malicious, has a status record, and its last purge height (0..h); TopValidatorCount in 1..number of candidates; minimum self delegation symbolic (1 <= m < 2^62); fee pool below the distribution threshold; no open allegation; h = 4
 // sv:outside more candidates than stated; fee distribution (covered by C02 hooks); allegation verdicts in the same block (C19); the pipeline of pending updates over several blocks and convergence (not yet encoded)
-// sv:goal no duplicate key among the updates; every positive-power update names a candidate whose record at h-1 has power >= the minimum, is not flagged malicious, carries exactly that power, at most TopValidatorCount of them, and every eligible candidate left out has power <= every elected one; every zero-power update names a validator of the last commit that was not elected
+// sv:goal no duplicate key among the updates; every positive-power update names a candidate whose record at h-1 has power >= the minimum, is not flagged malicious, carries exactly that power, at most TopValidatorCount of them, and every eligible candidate left out has power <= every elected one; every zero-power update names a validator of the last commit that was not elected and was not already purged at h-1 or h-2 (Tendermint applies updates two blocks later)
 func SV_C10_election() {
 	n := 2 + sv.Tier() // quick: 2 candidates, thorough: 3
 	top := int64(1 + sv.Choice("topCount", n))
@@ -105,14 +105,17 @@ func SV_C10_election() {
 			sv.Unreachable("validator record")
 		}
 	}
-	e.st.Commit() // version 1 = h-1
-	height := int64(2)
+	e.st.Commit()
+	e.st.Commit()
+	e.st.Commit() // version 3 = h-1
+	height := int64(4)
 	e.vs.lastHeight = height
 
 	// in-memory state Setup() rebuilds at BeginBlock
 	var votes []abci.VoteInfo
 	active := make([]bool, n)
 	malicious := make([]bool, n)
+	purgeH := make([]int64, n)
 	statusMode := sv.Choice("statusRecords", 3) // none / all active / all inactive (does not influence the election)
 	for i, c := range e.cands {
 		active[i] = sv.Bool(fmt.Sprint("active", i))
@@ -128,6 +131,7 @@ func SV_C10_election() {
 		}
 		purge := sv.Int64(fmt.Sprint("purge", i))
 		sv.Assume(purge >= 0 && purge <= height)
+		purgeH[i] = purge
 		if purge > 0 {
 			e.vs.SetLastPurgeHeight(c.addr, purge)
 		}
@@ -169,6 +173,10 @@ func SV_C10_election() {
 			removed[i] = true
 			sv.Assert(u.Power == 0, "power-not-negative")
 			sv.Assert(active[i], "zero-update-only-for-a-validator-of-the-last-commit")
+			// Tendermint applies the updates of block P at P+2: a validator removed at P is still
+			// in the last commit of P+1 and P+2 but no longer in the set the new updates apply to;
+			// removing it again there is rejected ("failed to find validator to remove")
+			sv.Assert(!(purgeH[i] > 0 && height <= purgeH[i]+2), "no-second-removal-within-two-blocks-of-a-purge")
 		}
 	}
 	sv.Assert(nElected <= top, "at-most-top-count-elected")
